@@ -166,6 +166,7 @@ def c11_history(col, rng, hidx, jobref=None):
         col.evaluations += 1
         col.counters["c11_ops"] += 1
         rp2 = dict(rp, history=list(hist))
+        col.generic(log, rp2)
         if res[0] != "ok":
             col.violation(pid, "operation_raised", dict(op=op, exc=repr(res[1])[:300], history=hist, source=S.render(sp)), rp2)
             return
@@ -296,6 +297,7 @@ def c15_history(col, rng, hidx, jobref=None):
         col.evaluations += 1
         col.counters["c15_checked_calls"] += 1
         rp2 = dict(rp, history=S.jsonable(hist))
+        col.generic(log, rp2)
         if ref[0] != "ok":
             return
         if res[0] != "ok":
@@ -547,6 +549,7 @@ def c18_case(col, rng, cidx, tmpdir, jobref=None):
     col.evaluations += 1
     col.counters["c18_restarts"] += 1
     rp2 = dict(rp, restart=S.jsonable(kw2))
+    col.generic(log, rp2)
     if r2[0] != "ok":
         col.violation(pid, "restart_from_cache_raised", dict(exc=repr(r2[1])[:300], caching=S.jsonable(kw1), restart=S.jsonable(kw2), source=S.render(sp)), rp2)
         return
